@@ -12,7 +12,7 @@
 (* logged observation must equal what the contract state says.  All        *)
 (* arguments are logged, so the search is linear.                          *)
 (***************************************************************************)
-EXTENDS SparseVecContract, Json
+EXTENDS SparseMatrixView, Json
 
 Trace == ndJsonDeserialize("sparsevec_trace.ndjson")
 
@@ -57,14 +57,22 @@ TIter    == Step("iter")    /\ CIterNew(Ev.j, 1, 0) /\ Same
 TFrom    == Step("from")    /\ Ev.i \in Idx(M) /\ CIterNew(Ev.j, 1, Ev.i) /\ Same
 TNext    == Step("next")    /\ cit[Ev.j].live /\ cit[Ev.j].pos # Done /\ CIterAdvance(Ev.j) /\ Same
 TWalk    == Step("walk")    /\ Same /\ UNCHANGED cit
-(* a complete loop over an iterator of the matrix view Slice(i, k, p[1], p[2]) started at (p[3], p[4]); x = columns *)
-TVWalk   == Step("vwalk")   /\ Ev.x > 0 /\ M % Ev.x = 0 /\ Same /\ UNCHANGED cit
+(* a complete loop over an iterator of a (nested, possibly transposed) view of the matrix; w = the view's word,   *)
+(* p = <<fi, fj>> (fi = -1: Iterator(), else IteratorFrom), x = columns of the matrix                             *)
+TVWalk   == Step("vwalk")   /\ Ev.x > 0 /\ M % Ev.x = 0 /\ ValidWord(UnflatWord(Ev.w), M \div Ev.x, Ev.x)
+                            /\ Same /\ UNCHANGED cit
+(* a write through a view made of slices *)
+TVWrite  == Step("vwrite")  /\ Ev.x > 0 /\ M % Ev.x = 0 /\ ValidWord(UnflatWord(Ev.w), M \div Ev.x, Ev.x)
+                            /\ ~HasT(UnflatWord(Ev.w))
+                            /\ LET v == DenView(UnflatWord(Ev.w), M \div Ev.x, Ev.x)
+                               IN Ev.i < v.vr /\ Ev.k < v.vc /\ Val1(CWrite(C, v.map[<<Ev.i, Ev.k>>], Ev.p[1]))
+                            /\ UNCHANGED cit
 TJWalk   == Step("jwalk")   /\ Len(Ev.w) = M /\ Same /\ UNCHANGED cit
 
 TraceInit == /\ l = 1 /\ n = [o \in Objs |-> 0] /\ content = [o \in Objs |-> <<>>]
              /\ cit = [j \in 1..NI |-> IterDead] /\ must = {} /\ taint = [o \in Objs |-> {}]
 TraceNext == TNew \/ TWrite \/ TReset \/ TSwap \/ TSwapRows \/ TSwapCols \/ TReverse \/ TPermute \/ TSort \/ TSlice \/ TAppendS
-             \/ TAppendV \/ TArith \/ TIter \/ TFrom \/ TNext \/ TWalk \/ TVWalk \/ TJWalk
+             \/ TAppendV \/ TArith \/ TIter \/ TFrom \/ TNext \/ TWalk \/ TVWalk \/ TVWrite \/ TJWalk
 TraceSpec == TraceInit /\ [][TraceNext]_tvars
 
 (* observations logged with the event that produced the current state *)
@@ -75,9 +83,10 @@ ObsOK ==
     /\ e.dim = n[1]                                 \* the length changes only as the contract says
     /\ e.c = SeqOf(content[1], n[1])                \* every read agrees with the dense model
     /\ (e.e = "walk"  => e.r = CWalk(content[1]))   \* exactly the non-zero positions, ascending, once
-    /\ (e.e = "vwalk" =>                            \* exactly the non-zero elements of the window, in order
-          /\ e.r = CViewWalk(content[1], e.x, e.i, e.k, e.p[1], e.p[2], e.p[3], e.p[4])
-          /\ e.w = CWindow(content[1], e.x, e.i, e.k, e.p[1], e.p[2]))   \* and reads through the view
+    /\ (e.e = "vwalk" =>                            \* exactly the non-zero elements of the view, in its order
+          LET v == DenView(UnflatWord(e.w), n[1] \div e.x, e.x) IN
+          /\ e.r = CViewIter(content[1], v, e.p[1], e.p[2])
+          /\ e.d = CViewSeq(content[1], v))                      \* and the reads through the view
     /\ (e.e = "jwalk" => e.r = CJointWalk(content[1], FunOf(e.w)))
     /\ (e.e \in {"iter", "from", "next"} => e.r = <<<<cit[e.j].pos>>>>)
 
